@@ -94,6 +94,38 @@ def _scenarios():
 
     S[("Occupations", "set:magnetization")] = magnetization
 
+    def kpts_changed_behind_atoms(kind):
+        def f():
+            a = _mk()
+            a.kpts.kmesh = [2, 1, 1]
+            a.kpts.gamma_centered = False
+            a.build()
+            if kind == "trs":
+                a.kpts.trs()
+                hist = "kmesh=[2,1,1] Monkhorst-Pack; build(); kpts.trs()"
+            else:
+                a.kpts.kshift = [0.1, 0.0, 0.0]
+                a.kpts.build()
+                hist = "kmesh=[2,1,1]; build(); kpts.kshift=[0.1,0,0]; kpts.build()"
+            flags = (bool(a.is_built), bool(a.kpts.is_built), bool(a.occ.is_filled))
+            g = np.asarray(a.G)
+            stale = []
+            if len(a.occ.wk) != a.kpts.Nk or not np.allclose(a.occ.wk, a.kpts.wk):
+                stale.append("occ.wk")
+            if len(a.active) != a.kpts.Nk + 1:
+                stale.append("active (one mask per k-point)")
+            else:
+                for ik in range(a.kpts.Nk):
+                    want = np.nonzero(2 * a.ecut >= np.linalg.norm(g + np.asarray(a.kpts.k[ik]), axis=1) ** 2)[0]
+                    if len(want) != len(a.active[ik][0]) or not np.array_equal(want, np.asarray(a.active[ik][0])):
+                        stale.append(f"active[{ik}]")
+            return hist + "  (SCF(atoms) would copy this object without rebuilding it)", dict(flags=flags, stale=stale), bool(stale and all(flags))
+
+        return f
+
+    S[("Atoms", "kpts.trs")] = kpts_changed_behind_atoms("trs")
+    S[("Atoms", "kpts.build")] = kpts_changed_behind_atoms("build")
+
     def set_k_persist():
         a = _mk()
         a.build()
